@@ -310,10 +310,13 @@ func (ex *Exec) chanRecv(st *State, ch Term, t types.Type, commaOk bool, instr s
 	r := ex.heap(st, chanHeap(elem, "recvd"), ArrSort(SLog))
 	okT := True
 	if commaOk {
-		okT = ex.D.Fresh("recv.ok", SBool)
-		// a receive only reports !ok on a closed channel
 		cl := ex.heap(st, chanHeap(elem, "closed"), ArrSort(SBool))
-		st.Assume(Or(okT, Select(cl, ch)))
+		if !knownConjunct(st, Not(Select(cl, ch)).S) {
+			okT = ex.D.Fresh("recv.ok", SBool)
+			// a receive only reports !ok on a closed channel
+			st.Assume(Or(okT, Select(cl, ch)))
+		}
+		// otherwise the path condition says literally that the channel is open: the receive is a value
 	}
 	st.Heaps[chanHeap(elem, "recvd")] = Store(r, ch, Ite(okT, App(SLog, "lsnoc", Select(r, ch), ex.valToElem(st, v, t)), Select(r, ch)))
 	ex.recordWrite(chanHeap(elem, "recvd"), LHeap1, ch, ArrSort(SLog))
@@ -534,4 +537,35 @@ func (ex *Exec) runDefers(st *State, frID int, k func(*State)) {
 	ex.callResolved(st, frID, d.instr, d.call, d.fnVal, d.args, func(st *State, _ []Val) {
 		ex.runDefers(st, frID, k)
 	})
+}
+
+// knownConjunct: lit occurs as an assertion of the path condition or as a conjunct of a
+// (nested) top-level conjunction of one (a syntactic check; only the latest assertions are scanned).
+func knownConjunct(st *State, lit string) bool {
+	var inAnd func(e *SExp) bool
+	inAnd = func(e *SExp) bool {
+		if e.String() == lit {
+			return true
+		}
+		if !e.IsAtom() && e.head() == "and" {
+			for _, c := range e.List[1:] {
+				if inAnd(c) {
+					return true
+				}
+			}
+		}
+		return false
+	}
+	for i := len(st.PC) - 1; i >= 0 && i >= len(st.PC)-80; i-- {
+		a := st.PC[i].S
+		if a == lit {
+			return true
+		}
+		if strings.HasPrefix(a, "(and ") && strings.Contains(a, lit) {
+			if es := parseSExps(a); len(es) == 1 && inAnd(es[0]) {
+				return true
+			}
+		}
+	}
+	return false
 }
